@@ -5,6 +5,7 @@ use std::io::{BufRead, Write};
 
 mod util;
 mod ns;
+mod asyncfilter;
 mod source;
 mod ruststr;
 mod pkgpath;
@@ -14,6 +15,7 @@ fn main() {
     let engine = std::env::args().nth(1).expect("engine");
     let f: fn(&str) -> String = match engine.as_str() {
         "ns" => ns::handle,
+        "asyncfilter" => asyncfilter::handle,
         "source" => source::handle,
         "ruststr" => ruststr::handle,
         "pkgpath" => pkgpath::handle,
